@@ -619,3 +619,77 @@ def r22_fold_float_const(text):
     if '.' not in lit:
         lit += '.0'
     return text[:m.start()] + m.group(1) + lit + ';' + text[m.end():], 1
+
+
+# ---------------------------------------------------------------- R19: iterator chains that build a collection -> cursor loops
+def r19_collect_set(text):
+    """`let X: HashSet<T> = SRC.iter().map(|v| EXPR).collect();`  ->  `let mut X: HashSet<T> = <HashSet<T>>::new();` + cursor loop inserting EXPR."""
+    pat = re.compile(r'let (\w+): (HashSet<[^>]+>) = (\w+(?:\.\w+)*)\s*\.iter\(\)\s*\.map\(\|(\w+)\| (.*?)\)\s*\.collect\(\);', re.S)
+    def sub(m):
+        x, ty, src, v, expr = m.group(1), m.group(2), m.group(3), m.group(4), m.group(5).strip()
+        return (f'let mut {x}: {ty} = <{ty}>::new();\n    let mut {x}_nx: usize = 0;\n    while {x}_nx < {src}.len()\n        /*@LOOPSPEC*/\n    {{\n'
+                f'        let {v} = &{src}[{x}_nx]; {x}_nx += 1;\n        {x}.insert({expr});\n    }}')
+    return pat.subn(sub, text)
+
+
+def r19_filter_map_collect(text):
+    """`let X: Vec<T> = SRC.iter().filter(|c| COND).map(|c| EXPR).collect();`  ->  cursor loop `if COND { X.push(EXPR); }`."""
+    pat = re.compile(r'let (\w+): (Vec<[^>]+>) = (\w+(?:\.\w+)*)\s*\.iter\(\)\s*\.filter\(\|(\w+)\| (.*?)\)\s*\.map\(\|(\w+)\| (.*?)\)\s*\.collect\(\);', re.S)
+    def sub(m):
+        x, ty, src, c, cond, c2, expr = (m.group(i) for i in range(1, 8))
+        if c2 != c:
+            expr = re.sub(r'\b%s\b' % re.escape(c2), c, expr)
+        return (f'let mut {x}: {ty} = <{ty}>::new();\n    let mut {x}_nx: usize = 0;\n    while {x}_nx < {src}.len()\n        /*@LOOPSPEC*/\n    {{\n'
+                f'        let {c} = &{src}[{x}_nx]; {x}_nx += 1;\n        if {cond.strip()} {{ {x}.push({expr.strip()}); }}\n    }}')
+    return pat.subn(sub, text)
+
+
+def r19_retain(text):
+    """`V.retain(|c| COND);`  ->  in-place order-preserving removal loop (what Vec::retain is specified to do):
+        let mut V_rx = 0; while V_rx < V.len() { let keep = { let c = &V[V_rx]; COND }; if keep { V_rx += 1; } else { V.remove(V_rx); } }
+    plus a ghost counter `V_seen` of how many ORIGINAL elements have been examined (for loop clauses)."""
+    pat = re.compile(r'(?m)^(\s*)(\w+)\.retain\(\|(\w+)\| (.*?)\);', re.S)
+    def sub(m):
+        ind, v, c, cond = m.group(1), m.group(2), m.group(3), m.group(4).strip()
+        return (f'{ind}let ghost {v}_orig = {v}@;\n{ind}let ghost mut {v}_seen: int = 0;\n{ind}let mut {v}_rx: usize = 0;\n{ind}while {v}_rx < {v}.len()\n{ind}    /*@LOOPSPEC*/\n{ind}{{\n'
+                f'{ind}    let keep = {{ let {c} = &{v}[{v}_rx]; {cond} }};\n{ind}    proof {{ {v}_seen = {v}_seen + 1; }}\n'
+                f'{ind}    if keep {{ {v}_rx += 1; }} else {{ {v}.remove({v}_rx); }}\n{ind}}}')
+    return pat.subn(sub, text)
+
+
+def r19_copied_filters_collect(text):
+    """`let X: C<T> = SRC.iter().copied().filter(|p| C1).filter(|p| C2)...collect();`  ->  cursor loop:
+        let p_val = SRC[i]; let p = &p_val; if !(C1) { continue; } if !(C2) { continue; } X.push(p_val);
+    (filters run in order and short-circuit exactly like the adapter chain; a closure body may be a block)."""
+    m = re.search(r'let (\w+): ((?:SmallVec|Vec)<[^;=]+?>) = (\w+(?:\.\w+)*)\s*\.iter\(\)\s*\.copied\(\)', text)
+    if not m:
+        return text, 0
+    x, ty, src = m.group(1), m.group(2), m.group(3)
+    i = m.end()
+    conds = []
+    par = None
+    while True:
+        mm = re.compile(r'\s*\.filter\(').match(text, i)
+        if not mm:
+            break
+        op = mm.end() - 1
+        cp = match_bracket(text, op, '(', ')')
+        inner = text[op + 1:cp].strip()
+        mc = re.match(r'\|(\w+)\|\s*(.*)$', inner, re.S)
+        if not mc:
+            raise RuleError('R19: filter closure shape')
+        par = par or mc.group(1)
+        body = mc.group(2).strip()
+        if mc.group(1) != par:
+            body = re.sub(r'\b%s\b' % re.escape(mc.group(1)), par, body)
+        conds.append(body)
+        i = cp + 1
+    me = re.compile(r'\s*\.collect\(\);').match(text, i)
+    if not me or not conds:
+        raise RuleError('R19: copied().filter()..collect() shape')
+    lines = [f'let mut {x}: {ty} = <{ty}>::new();', f'    let mut {x}_nx: usize = 0;', f'    while {x}_nx < {src}.len()', '        /*@LOOPSPEC*/', '    {',
+             f'        let {par}_val = {src}[{x}_nx]; {x}_nx += 1;', f'        let {par} = &{par}_val;']
+    for c in conds:
+        lines.append(f'        if !({c}) {{ continue; }}')
+    lines += [f'        {x}.push({par}_val);', '    }']
+    return text[:m.start()] + '\n'.join(lines) + text[me.end():], 1
